@@ -733,6 +733,15 @@ func execLine(input string) string {
 	if len(f) > 0 && f[0] == "slowrr" {
 		return execSlowRouter(f)
 	}
+	if len(f) > 0 && f[0] == "cidle" {
+		return execCIdle(f)
+	}
+	if len(f) > 0 && f[0] == "cunreach" {
+		return execCUnreach(f)
+	}
+	if len(f) > 0 && f[0] == "dial" {
+		return execDial(f)
+	}
 	if len(f) > 0 && f[0] == "slowres" {
 		return execSlowResolver(f)
 	}
@@ -890,16 +899,27 @@ func (Area) Gen(r *rand.Rand, tier string, emit func(string)) {
 		"cstream 1200 hold3 1", "cstream 1200 refuse 0", "cstream 2400 hold2 1", "cstream 0 hold2 1",
 	}
 	rcloseT := []string{"rclose 30000 refuse 4", "rclose 0 hang 3"}
-	pre := append(append([]string{"slowrr 1500 50 1 0"}, slowresQ...), cstreamQ...)
+	// unreachable / dying targets with the REAL constructor (dial.go); `silent` costs ~15 s (10 s request timeout)
+	dialQ := []string{
+		"dial nocreds 1 0", "dial badcfg 0 0", "dial closed 1 300", "dial closed 0 0", "dial bufrefuse 1 1200",
+		"dial dies 1 1300", "dial dies 0 0", "dial silent 1 6000",
+	}
+	dialT := []string{
+		"dial closed 1 2500", "dial bufrefuse 0 100", "dial dies 1 100", "dial dies 1 2600", "dial silent 0 200",
+		"dial silent 1 11000", "dial nocreds 0 0", "dial badcfg 1 0",
+	}
+	idleQ := []string{"cidle restart 0", "cidle restart 8000", "cidle idletimeout 0", "cidle idletimeout 8000",
+		"cunreach refuse 1200", "cunreach hang 1200"}
+	pre := append(append(append(append([]string{"slowrr 1500 50 1 0"}, slowresQ...), cstreamQ...), dialQ...), idleQ...)
 	if tier == "thorough" {
-		pre = append(append(append(pre, slowT...), cstreamT...), rcloseT...)
+		pre = append(append(append(append(pre, slowT...), cstreamT...), rcloseT...), dialT...)
 	}
 	prefetch(pre)
 	// the ~12 s router-level lines are emitted last, so that everything else runs while their children do
 	emitNow := emit
 	var late []string
 	emit = func(l string) {
-		if strings.HasPrefix(l, "slowrr ") || strings.HasPrefix(l, "rclose ") {
+		if strings.HasPrefix(l, "slowrr ") || strings.HasPrefix(l, "rclose ") || (strings.HasPrefix(l, "dial ") && !strings.Contains(l, "nocreds") && !strings.Contains(l, "badcfg")) {
 			late = append(late, l)
 			return
 		}
@@ -974,6 +994,20 @@ func (Area) Gen(r *rand.Rand, tier string, emit func(string)) {
 	}
 	for k := 0; k < nar; k++ {
 		emit(fmt.Sprintf("addrm %d %d %d %d", r.Intn(1_000_000), 6+r.Intn(6), 15+r.Intn(30), k%2))
+	}
+
+	// 1d'. the channel falls back to IDLE between two calls; unreachable target with a deadline (idle.go)
+	for _, l := range idleQ {
+		emit(l)
+	}
+	// 1e. unreachable / dying targets through the real grpc.NewClient (dial.go)
+	for _, l := range dialQ {
+		emit(l)
+	}
+	if tier == "thorough" {
+		for _, l := range dialT {
+			emit(l)
+		}
 	}
 
 	// Router level: the request timeout is the fixed 10 s default, one case costs 11–13 s.
